@@ -1,5 +1,6 @@
 SPECIFICATION Spec
 CONSTANTS Nodes <- MCNodes
+          Strict = TRUE
           TrackB = FALSE
           SlotMax = 1
 INVARIANTS I1 I2 I3 I6
